@@ -1,12 +1,19 @@
 package props
 
 import (
+	"strings"
+	"strconv"
+	"os/exec"
+	"os"
+	"encoding/json"
 	"fmt"
 	"time"
 
 	"verif/harness/internal/devx"
 	"verif/harness/internal/ev"
 	"verif/harness/internal/obs"
+	"verif/harness/internal/sched"
+	"verif/harness/internal/msg"
 	"verif/harness/internal/world"
 )
 
@@ -146,17 +153,142 @@ func c13RunSeq(seq []int) []c13Verdict {
 	return out
 }
 
+// ---- registration changes: sequential history and concurrent scenario ------------------------------------------------
+
+// c13RegChange runs logout(A) ; unregister(A) ; logout(A) on one provider and judges the last reply as a request of an
+// unregistered issuer.
+func c13RegChange(p loP) c13Verdict {
+	w, req, _ := loBuild(p)
+	w.Do(req)
+	_, req2, t := loBuild(p)
+	w.Store.UnregisterSP(msg.SPA().EntityID)
+	t.IssuerRegistered = false
+	t.ExpectTarget = ""
+	t.Conformant = false
+	return c13JudgeReply(w.Do(req2), t)
+}
+
+type c13SchedResult struct {
+	Execs      int64          `json:"execs"`
+	Points     int64          `json:"points"`
+	Truncated  bool           `json:"truncated"`
+	Stuck      string         `json:"stuck,omitempty"`
+	Outcomes   map[string]int `json:"outcomes"`
+	Violations []c15Violation `json:"violations"`
+}
+
+// c13Sched: logout(A) || logout(A) || unregister(A) on one provider under the controlled scheduler (statement granularity).
+// Oracle (the order of events is known): a request that STARTED after the service provider was removed gets the reply of an
+// unregistered issuer; one that FINISHED before gets the reply of a registered one; one that overlaps may get either.
+func c13Sched(bound int, deadline time.Time, only []int) c13SchedResult {
+	world.PinClock()
+	sched.Fine = true
+	world.ThreadID = sched.CurrentThread
+	res := c13SchedResult{Outcomes: map[string]int{}}
+	solo := func(unreg bool) string {
+		w, req, _ := loBuild(loP{})
+		if unreg {
+			w.Store.UnregisterSP(msg.SPA().EntityID)
+		}
+		return c15Observe(w.Do(req)).Norm
+	}
+	regReply, unregReply := solo(false), solo(true)
+	if regReply == unregReply {
+		res.Stuck = "harness: the two reference replies do not differ"
+		return res
+	}
+	scenario := func() []sched.Body {
+		w, req1, _ := loBuild(loP{})
+		_, req2, _ := loBuild(loP{})
+		return []sched.Body{
+			func() any { return c15Observe(w.Do(req1)).Norm },
+			func() any { return c15Observe(w.Do(req2)).Norm },
+			func() any { w.Store.UnregisterSP(msg.SPA().EntityID); return nil },
+		}
+	}
+	check := func(x *sched.Exec, schedule []int) {
+		if x.Stuck {
+			res.Stuck = "a thread blocked outside the scheduler after point " + x.StuckAt
+			return
+		}
+		if x.Deadlock || x.Horizon {
+			res.Outcomes["violation:deadlock-or-horizon"]++
+			if len(res.Violations) < 5 {
+				res.Violations = append(res.Violations, c15Violation{Clause: "deadlock-or-horizon", Schedule: append([]int{}, schedule...)})
+			}
+			return
+		}
+		env := -1
+		first, last := map[int]int{}, map[int]int{}
+		for i, st := range x.Trace {
+			if st.Thread == 2 && st.Label == "env.UnregisterSP" {
+				env = i // the step that removes the registration
+			}
+			if _, ok := first[st.Thread]; !ok {
+				first[st.Thread] = i
+			}
+			last[st.Thread] = i
+		}
+		for ti := 0; ti < 2; ti++ {
+			got, _ := x.Results[ti].(string)
+			class := "overlaps"
+			want := ""
+			switch {
+			case env >= 0 && first[ti] > env:
+				class, want = "started-after-removal", unregReply
+			case env >= 0 && last[ti] < env:
+				class, want = "finished-before-removal", regReply
+			}
+			res.Outcomes[class]++
+			bad := ""
+			if want != "" && got != want {
+				bad = "logout-reply-does-not-reflect-the-registration-at-the-time-of-the-request:" + class
+			} else if want == "" && got != regReply && got != unregReply {
+				bad = "logout-reply-is-neither-the-registered-nor-the-unregistered-reply"
+			}
+			if bad != "" {
+				res.Outcomes["violation:"+bad]++
+				if len(res.Violations) < 5 {
+					res.Violations = append(res.Violations, c15Violation{Clause: bad, Schedule: append([]int{}, schedule...), Thread: fmt.Sprint(ti), Detail: clip([]byte(diffHint(want, got)), 500)})
+				}
+			}
+		}
+	}
+	if only != nil {
+		x := sched.Run(scenario, only, 20000)
+		check(x, x.Choices)
+		res.Execs = 1
+		return res
+	}
+	e := &sched.Explorer{Scenario: scenario, Bound: bound, Horizon: 20000, Check: check,
+		Stop: func() bool { return !deadline.IsZero() && time.Now().After(deadline) }}
+	e.Explore(nil)
+	res.Execs, res.Points, res.Truncated = e.Execs, e.Points, e.Truncated
+	return res
+}
+
 type c13Replay struct {
-	P   *loP  `json:"p,omitempty"`
-	Seq []int `json:"seq,omitempty"`
+	P        *loP  `json:"p,omitempty"`
+	Seq      []int `json:"seq,omitempty"`
+	RegChange bool `json:"registration_removed_between,omitempty"`
+	Schedule []int `json:"schedule,omitempty"`
 }
 
 func init() { Registry["C13"] = runC13 }
 
 func runC13(ctx Ctx) int {
 	world.PinClock()
+	for i, a := range ctx.Args {
+		if a == "--sched-worker" && i+2 < len(ctx.Args) {
+			bound, _ := strconv.Atoi(ctx.Args[i+1])
+			secs, _ := strconv.Atoi(ctx.Args[i+2])
+			b, _ := json.Marshal(c13Sched(bound, time.Now().Add(time.Duration(secs)*time.Second), nil))
+			fmt.Println("RESULT " + string(b))
+			return 0
+		}
+	}
 	run := ev.NewRun("C13")
-	run.Rule = "every assignment of 15 logout-request / SP-metadata dimensions with at most k deviations from the conformant default (k<=3 quick, k<=4 thorough), plus every event history of length 2 (quick) / <=3 (thorough) over a 16-request alphabet on ONE provider (each reply judged by the same oracle; sync.Pool is replaced by a deterministic LIFO pool through the overlay); one execution = fresh provider + one real logout request with the clock pinned; the reply is decoded with x/net/html + xt; oracle = Success only-if conditions, InResponseTo echo, Issuer = published entityID, delivery only to the first registered SingleLogoutService location with unchanged RelayState"
+	run.Rule = "every assignment of 15 logout-request / SP-metadata dimensions with at most k deviations from the conformant default (k<=3 quick, k<=4 thorough), plus every event history of length 2 (quick) / <=3 (thorough) over a 16-request alphabet on ONE provider (each reply judged by the same oracle; sync.Pool is replaced by a deterministic LIFO pool through the overlay); one execution = fresh provider + one real logout request with the clock pinned; the reply is decoded with x/net/html + xt; plus logout ; service provider unregistered ; same logout for every k<=1 shape, plus logout(A) || logout(A) || unregister(A) under the controlled scheduler (statement granularity, preemption bound 1 quick / 2 thorough; a request that started after the removal gets the unregistered-issuer reply, one that finished before it the registered one); oracle = Success only-if conditions, InResponseTo echo, Issuer = published entityID, delivery only to the first registered SingleLogoutService location with unchanged RelayState"
 	run.Assume = []string{"RelayState alphabet here is {token, absent}; metacharacters in RelayState are C17/C18's alphabet", "a plain HTTP error (>=400) is accepted as 'not silence' where no LogoutResponse is produced"}
 	if ctx.Replay != "" {
 		var rp c13Replay
@@ -165,7 +297,18 @@ func runC13(ctx Ctx) int {
 			return 2
 		}
 		var v c13Verdict
-		if rp.P != nil {
+		if rp.Schedule != nil {
+			r := c13Sched(-1, time.Time{}, rp.Schedule)
+			fmt.Printf("replay C13: schedule %v -> %v\n", rp.Schedule, r.Violations)
+			if len(r.Violations) > 0 {
+				fmt.Printf("VIOLATION property=C13 replay=%s\n", ctx.Replay)
+				return 1
+			}
+			return 0
+		}
+		if rp.P != nil && rp.RegChange {
+			v = c13RegChange(*rp.P)
+		} else if rp.P != nil {
 			v = c13Judge(*rp.P)
 		} else {
 			vs := c13RunSeq(rp.Seq)
@@ -239,6 +382,66 @@ func runC13(ctx Ctx) int {
 	})
 	complete = complete && complete2
 	run.Set("histories", len(seqs))
+	// registration removed between two requests: every k<=1 shape
+	var rc []item
+	c13Space.EnumK(1, func(vec []int) bool {
+		p := loFromVec(c13Space, vec)
+		if p.Issuer == "" && p.Lookup == "" {
+			rc = append(rc, item{p, c13Space.Labels(vec)})
+		}
+		return true
+	})
+	_, complete3 := parallel(len(rc), deadline, func(i int) {
+		v := c13RegChange(rc[i].p)
+		run.Evaluations.Add(1)
+		run.Transitions.Add(2)
+		run.Outcome("after-unregistration:" + v.Class)
+		for _, c := range v.Clauses {
+			p := rc[i].p
+			run.Violate("after-unregistration:"+c, "logout", append([]string{"logout ; service provider unregistered ; same logout"}, rc[i].labels...), v.Detail, c13Replay{P: &p, RegChange: true})
+		}
+	})
+	complete = complete && complete3
+	// concurrent: logout || logout || unregistration under the controlled scheduler (own process)
+	{
+		exe := os.Getenv("VERIF_VCHECK")
+		if exe == "" {
+			exe, _ = os.Executable()
+		}
+		bound, secs := 1, 120
+		if run.Tier == "thorough" {
+			bound, secs = 2, 1800
+		}
+		cmd := exec.Command(exe, "C13", "--sched-worker", strconv.Itoa(bound), strconv.Itoa(secs))
+		cmd.Env = append(os.Environ(), "GOMAXPROCS=1")
+		out, err := cmd.CombinedOutput()
+		var r c13SchedResult
+		got := false
+		for _, line := range strings.Split(string(out), "\n") {
+			if strings.HasPrefix(line, "RESULT ") && json.Unmarshal([]byte(strings.TrimPrefix(line, "RESULT ")), &r) == nil {
+				got = true
+			}
+		}
+		switch {
+		case !got:
+			run.HarnessError(fmt.Sprintf("scheduler worker: %v: %s", err, clip(out, 300)))
+		case r.Stuck != "":
+			run.HarnessError("scheduler scenario cannot be explored: " + r.Stuck)
+		default:
+			run.Evaluations.Add(r.Execs)
+			run.Transitions.Add(r.Points)
+			for k, n := range r.Outcomes {
+				run.OutcomeN("sched:"+k, int64(n))
+			}
+			run.Set("scheduler", map[string]any{"scenario": "logout(A) || logout(A) || unregister(A)", "granularity": "statement", "preemption_bound": bound, "schedules": r.Execs, "points": r.Points})
+			if r.Truncated {
+				run.NotExhaustive("the scheduler scenario hit its time budget")
+			}
+			for _, v := range r.Violations {
+				run.Violate(v.Clause, "logout-concurrent", []string{"scenario=logout(A) || logout(A) || unregister(A)"}, map[string]any{"detail": v.Detail, "thread": v.Thread}, c13Replay{Schedule: v.Schedule})
+			}
+		}
+	}
 	run.Sample(items[0].p)
 	run.Sample(items[len(items)/2].p)
 	run.Sample(items[len(items)-1].p)
